@@ -67,6 +67,7 @@ func main() {
 	failOpen := fl.Bool("failopen", false, "a failing Open attempt (injected fs error) before some images are reopened")
 	failClose := fl.Bool("failclose", false, "fault: some Close calls fail with an injected file-system error; the process exits and the directory is opened again")
 	noPin := fl.Bool("nopin", false, "seq: every second program runs with pogreb's own random hash seeds")
+	bigVals := fl.Bool("bigvals", false, "stress: values of 1-4 MiB (long copies out of the file, one segment per put)")
 	slowFS := fl.Bool("slowfs", false, "stress: reads of segment and index files yield / sleep briefly before touching the file (widens unlocked windows of readers)")
 	holdBG := fl.Bool("holdbg", false, "stress: park the background compaction at its first yield point and call Close meanwhile")
 	tearSeq := fl.Bool("tear", false, "seq: simulated unclean shutdowns (garbage appended to / bytes cut off the newest segment) and recovery")
@@ -223,6 +224,21 @@ func main() {
 		tot["events"] = rec.Events
 		tot["recordings"] = rec.Recs
 		writeStats(*stats, tot, samples, t0)
+	case "closerace":
+		// a Close / compaction started at the moment a reader is inside its critical section, on a file system that
+		// invalidates the memory of a file when it is closed (C10, C14, C07)
+		h.PinSeed(uint32(0x3c6ef372 + *seed))
+		rec, err := h.NewRec(*out)
+		if err != nil {
+			fatal(err)
+		}
+		tot := h.CloseRace(rec, *seed, *n)
+		if err := rec.Close(); err != nil {
+			fatal(err)
+		}
+		tot["events"] = rec.Events
+		tot["recordings"] = rec.Recs
+		writeStats(*stats, tot, nil, t0)
 	case "stress":
 		// free-running concurrent histories (C07 linearizability, C10 races/faults/deadlock/Close)
 		ks := h.PinSeed(uint32(0x7f4a7c15 + *seed))
@@ -239,7 +255,7 @@ func main() {
 				Workers: 2 + rng.Intn(*workers-1), OpsEach: *nops, Keys: ks.InClass(1, uint32(i), *nkeys),
 				Maint: *maint, CloseMid: *closeMid && rng.Intn(2) == 0, BG: *bg && rng.Intn(2) == 0, Prefill: rng.Intn(2 * *nkeys),
 				Seed: *seed*7 + int64(i), MaxSeg: []uint32{1024, 4096, 1 << 20}[rng.Intn(3)], Grow: *grow,
-				SyncW: *syncw && rng.Intn(2) == 0, HoldBG: *holdBG}
+				SyncW: *syncw && rng.Intn(2) == 0, HoldBG: *holdBG, Big: *bigVals}
 			if *holdBG {
 				o.BG, o.CloseMid = true, true
 			}
